@@ -149,11 +149,12 @@ func cmdCheck(args []string) int {
 	tier := fs.String("tier", "quick", "quick|thorough")
 	verif := fs.String("verif", "/verif", "verif root")
 	only := fs.String("only", "", "only functions whose name contains this")
+	pkgOnly := fs.String("pkg", "", "only functions of the package whose import path ends with this (experiments; evidence goes to the partial-run directory)")
 	verbose := fs.Bool("v", false, "verbose")
 	keep := fs.Bool("keep", false, "keep smt files")
 	fs.Parse(args)
 	keepFiles = *keep
-	partialRun = *only != ""
+	partialRun = *only != "" || *pkgOnly != ""
 	siteCoversComplete = *tier == "thorough"
 	blockCovers = os.Getenv("GVC_BLOCKCOVERS") != ""
 	t0 := time.Now()
@@ -176,6 +177,9 @@ func cmdCheck(args []string) int {
 			continue
 		}
 		if *only != "" && !strings.Contains(c.Name, *only) {
+			continue
+		}
+		if *pkgOnly != "" && !strings.HasSuffix(c.Pkg, *pkgOnly) {
 			continue
 		}
 		keys = append(keys, k)
